@@ -21,6 +21,7 @@ from importlib.machinery import PathFinder
 from .common import Part
 
 from supp.project import Project
+from supp.assistant import assist
 from supp.module import SourceModule, ImportedModule
 
 MODS = [(), ('vm',), ('vm', 'vn')]
@@ -60,6 +61,13 @@ def materialise(root, cont, top_modules=()):
             rec(os.path.join(d, name), sub, (pkg + '.' + name) if pkg else name)
     rec(root, cont, None)
     for m in top_modules:
+        # 'vp' -> vp.py;  'vp|.so' / 'vp|.pyc' -> an (empty) extension module / sourceless bytecode file of that name:
+        # importlib finds it by name and stops there, it is never loaded
+        if '|' in m:
+            m, kind = m.split('|')
+            suf = importlib.machinery.EXTENSION_SUFFIXES[0] if kind == '.so' else kind
+            open(os.path.join(root, m + suf), 'w').close()
+            continue
         f = os.path.join(root, m + '.py')
         open(f, 'w').close()
         files.append((f, None))
@@ -103,6 +111,13 @@ def ref_find(name, roots):
         if i < len(parts) - 1 and locs is None:
             return None
     return spec
+
+
+def unloadable(name, roots):
+    """importlib resolves the name to one of the empty .so / .pyc files of the tree: the name itself cannot be
+    compared (supp would have to load it), everything BELOW it can (it is not a package: nothing is found)"""
+    spec = ref_find(name, roots)
+    return spec is not None and spec.origin and not spec.origin.endswith('.py') and any(spec.origin.startswith(r) for r in roots)
 
 
 def expected_origin(name, roots):
@@ -195,7 +210,7 @@ def check_tree(workdir, t1, t2, top2, order, part, extensions=False):
     part.count('trees')
     depth = 4 if max(_depth(t1), _depth(t2)) >= 3 else 3
     # which top-level names exist in both roots (shadowing situations)
-    tops = [set(os.path.splitext(n)[0] for n in os.listdir(r)) for r in (r1, r2)]
+    tops = [set(n.split('.')[0] for n in os.listdir(r)) for r in (r1, r2)]
     shadow = bool(tops[0] & tops[1])
     # ---- absolute names
     names = []
@@ -203,6 +218,9 @@ def check_tree(workdir, t1, t2, top2, order, part, extensions=False):
         for parts in itertools.product(ALPHA if n <= 3 else ('vp', 'vq', 'vm'), repeat=n):
             names.append('.'.join(parts))
     for name in names:
+        if unloadable(name, roots):
+            part.count('names_of_fake_binary_modules_skipped')
+            continue
         part.count('names_resolved')
         tag = 'shadowed-top-name' if (shadow and name.split('.')[0] in (tops[0] & tops[1])) else 'tree'
         r = compare_name(P, name, roots, tag)
@@ -230,11 +248,54 @@ def check_tree(workdir, t1, t2, top2, order, part, extensions=False):
                         kind = 'beyond-top' if exp == 'ImportError' else ('supp-fails' if got == 'ImportError' or got.startswith('EXC') else 'different-name')
                         add('relative:%s:%s' % (kind, 'init' if base == '__init__.py' else 'module'),
                             'relative %r from %s (package %r): importlib.util.resolve_name -> %s, supp -> %s' % (rel, filename.replace(workdir, ''), package, exp, got))
+    # ---- completion of the module name in `from <dots><letters>|`: the children of the package the dots name from that file
+    for files in (f1, f2):
+        for filename, pkg in files:
+            for level in range(0, depth + 2):
+                for head in ('', 'vp.', 'vp.vq.'):
+                    if not level and not head:
+                        continue
+                    for typed in ('', 'v', 'vm'):
+                        spec_txt = '.' * level + head + typed
+                        text = 'from ' + spec_txt
+                        part.count('from_completions')
+                        try:
+                            got = assist(P, text, (1, len(text)), filename)
+                        except Exception as e:
+                            part.count('assist_crashes')
+                            continue
+                        base = ('.' * level + head).rstrip('.') if head else '.' * level
+                        target = ref_resolve(base, pkg) if level else base
+                        if target == 'ImportError':
+                            exp = []
+                        else:
+                            spec = ref_find(target, roots)
+                            if spec is None or spec.submodule_search_locations is None:
+                                exp = None         # not a package: covered by the listing checks below
+                            else:
+                                exp = sorted(P.list_packages(target))
+                        if exp is None:
+                            continue
+                        if got[0] != typed or list(got[1]) != exp:
+                            add('from-completion:%s' % ('relative-level-%d' % min(level, 3) if level else 'absolute'),
+                                'assist at the end of %r in %s (package %r) gives prefix %r and %s; the name left of the cursor is %r and package %r has children %s' % (
+                                    text, filename.replace(workdir, ''), pkg, got[0], list(got[1])[:8], typed, target, exp[:8]))
     # ---- listings
     pkgs = sorted({pkg for _f, pkg in f1 + f2 if pkg})
     for pkg in pkgs:
         spec = ref_find(pkg, roots)
         if spec is None or spec.submodule_search_locations is None:
+            # not a package for importlib (shadowed by a module of an earlier root): nothing below it can be imported
+            part.count('listings_of_non_packages')
+            try:
+                got = set(P.list_packages(pkg))
+            except Exception as e:
+                add('listing:supp-raises', 'list_packages(%r) raises %r' % (pkg, e))
+                continue
+            extra = {g for g in got if (pkg + '.' + g) not in sys.modules}
+            if extra:
+                add('listing:shadowed-top-name:children-of-non-package', 'list_packages(%r) proposes %s, but %r is %s for importlib (roots %s)' % (
+                    pkg, sorted(extra), pkg, 'not importable' if spec is None else 'the module ' + os.path.basename(spec.origin or '?'), [os.path.basename(x) for x in roots]))
             continue
         part.count('listings')
         exp = {m.name for m in pkgutil.iter_modules(spec.submodule_search_locations)}
@@ -322,6 +383,9 @@ def tree_pairs(tier):
         for p in have:
             yield t1, ((), ()), (p,)
             yield t1, (('vm',), ()), (p,)
+            # ... or a compiled extension / sourceless bytecode file of that name (not a source, still a module)
+            yield t1, ((), ()), (p + '|.so',)
+            yield t1, (('vm',), ()), (p + '|.pyc',)
 
 
 _PAIRS = {}
